@@ -5,6 +5,7 @@ import (
 	"fmt"
 	"github.com/acquirecloud/golibs/timeout"
 	"io"
+	"os"
 	"sync"
 	"sync/atomic"
 	"time"
@@ -31,16 +32,20 @@ type LeaseScenario struct {
 	After       bool          `json:"after,omitempty"`        // unlockrace: the renewal in flight is applied before Unlock runs
 	Same        bool          `json:"same,omitempty"`         // handoff: the second tenure is on the same Locker object (else on another provider's)
 	DelayPct    int           `json:"delay_pct,omitempty"`    // hold: every renewal call takes this % of the lease to reach the storage
+	ReplyPct    int           `json:"reply_pct,omitempty"`    // hold: the reply of every applied renewal call takes this % of the lease to come back
+	HonourAll   bool          `json:"honour_all,omitempty"`   // hold: the storage honours the context of a call for the whole time the call is on its way (a remote storage), not only at its start
 	Waiters     int           `json:"waiters,omitempty"`      // death: number of lockers parked in Lock() when the holder dies (default 1)
 	Wait10      int           `json:"wait10,omitempty"`       // waithold: the second locker waits this many tenths of a lease in Lock() before it gets the lock
 	OnlyExcl    bool          `json:"only_excl,omitempty"`    // waithold: judge mutual exclusion only (C01), not the stored record (C05)
 	Acquire     string        `json:"acquire,omitempty"`      // hold: "" = Lock(); "lockctx" / "trylock": acquired with a context that is cancelled right after the acquisition, on a storage that refuses done contexts
+	Early       bool          `json:"early,omitempty"`        // relock: the late reply of the first tenure's renewal arrives between Unlock and the re-lock (Wait10 hundredths of a lease before it) instead of after it
+	Busy        bool          `json:"busy,omitempty"`         // relock (with Early): a callback of another user of the process-wide timer pool occupies a pool worker across the moment the second tenure's first renewal is due
 	HoldCreate  bool          `json:"hold_create,omitempty"`  // relock: the Create of the second tenure is in flight while the late renewal of the first completes
 	Hold10      int           `json:"hold10,omitempty"`       // unlockfail: the lock is held this many tenths of a lease before the failing Unlock
 	Applied     bool          `json:"applied,omitempty"`      // unlockfail: the Delete is applied and only its reply is lost
 	Blocking    bool          `json:"blocking,omitempty"`     // hold: the contender tries with a blocking LockWithCtx (a tenth of a lease) instead of TryLock
 	Shared      int           `json:"shared,omitempty"`       // hold: a second goroutine uses the holder's Locker meanwhile: 1 = its LockWithCtx is cancelled while it waits for the token, 2 = its TryLock fails
-	Warm        int           `json:"warm,omitempty"`         // multi: this many callbacks due at once were run through the process-wide timer pool (and the pool left idle) before the first lock is taken
+	Warm        int           `json:"warm,omitempty"`         // multi, relock: this many callbacks due at once were run through the process-wide timer pool (and the pool left idle) before the first lock is taken
 	CancelFirst bool          `json:"cancel_first,omitempty"` // death: the waiter that started waiting first gives up (its context is cancelled) before the dead holder's record expires
 	ErrKind     int           `json:"err_kind,omitempty"`     // hold: what the failing renewal calls return: 0 a plain error, 1 wraps ErrClosed, 2 wraps ErrCommunication, 3 context.DeadlineExceeded, 4 io.ErrUnexpectedEOF, 5 wraps ErrInternal
 	InFlight    int           `json:"in_flight,omitempty"`    // unlockfail: a renewal is in flight across the Unlock: 1 held before the storage applied it, 2 after
@@ -216,6 +221,8 @@ func runHold(s LeaseScenario) (info LeaseInfo, v *vstat.Violation, exact bool) {
 		fa.FailCas(k)
 	}
 	fa.CasDelay = L * time.Duration(s.DelayPct) / 100
+	fa.CasReplyDelay = L * time.Duration(s.ReplyPct) / 100
+	fa.HonourCtx = s.HonourAll
 	fa.CasErr = transientErr(s.ErrKind)
 	for _, k := range s.FailCreate {
 		if k > 0 {
@@ -728,6 +735,7 @@ func runRelock(s LeaseScenario) (info LeaseInfo, v *vstat.Violation, exact bool)
 	a, b := pa.NewLocker("lease"), pb.NewLocker("lease")
 	ctx := context.Background()
 	fa.HoldNextCas(s.After)
+	warmPool(s.Warm)
 	t0 := time.Now()
 	a.Lock()
 	select {
@@ -768,9 +776,31 @@ func runRelock(s LeaseScenario) (info LeaseInfo, v *vstat.Violation, exact bool)
 		time.Sleep(L/20 + 5*time.Millisecond)
 		close(fa.CreateResume)
 		ok = <-res
+	} else if s.Early {
+		// the late reply arrives between the Unlock and the re-lock
+		close(fa.Resume)
+		rT := time.Now()
+		time.Sleep(L * time.Duration(s.Wait10) / 100)
+		ok = a.TryLock(ctx)
+		if s.Busy {
+			// another user of the process-wide timer pool: its callback keeps a pool worker from shortly before the first
+			// renewal of the second tenure is due until shortly after - what is due meanwhile is served late and at once
+			from, to := rT.Add(L/2-L/20), time.Now().Add(L/2+L/20)
+			timeout.Call(func() { time.Sleep(time.Until(to)) }, time.Until(from))
+		}
 	} else {
 		ok = a.TryLock(ctx)
 		close(fa.Resume)
+	}
+	// the second tenure may meet a slow storage and transient failures of individual renewal calls (numbered from the held
+	// call of the first tenure on), as any tenure may
+	fa.SetCasDelay(L * time.Duration(s.DelayPct) / 100)
+	fa.SetCasReplyDelay(L * time.Duration(s.ReplyPct) / 100)
+	fa.CasErr = transientErr(s.ErrKind)
+	for _, k := range s.FailCas {
+		if k > 1 {
+			fa.FailCas(k)
+		}
 	}
 	if !ok {
 		_, err := inner.Get(ctx, leaseKey)
@@ -800,6 +830,9 @@ func runRelock(s LeaseScenario) (info LeaseInfo, v *vstat.Violation, exact bool)
 			}
 		}
 	}
+	if os.Getenv("VERIF_DEBUG_EVENTS") != "" {
+		fmt.Fprintln(os.Stderr, "relock events:", describeEvents(fa.Events(), t0))
+	}
 	a.Unlock()
 	held = false
 	if !b.TryLock(ctx) {
@@ -810,6 +843,20 @@ func runRelock(s LeaseScenario) (info LeaseInfo, v *vstat.Violation, exact bool)
 		return info, vstat.V("lease:record-after-unlock", "lease %v: every holder has unlocked, the lock record is still in the storage; calls:%s", L, describeEvents(fa.Events(), t0)), true
 	}
 	return info, nil, false
+}
+
+// warmPool gives the process-wide timer pool a history: n callbacks due at once (the pool grows), then nothing (it idles).
+func warmPool(n int) {
+	if n <= 0 {
+		return
+	}
+	var wg sync.WaitGroup
+	for i := 0; i < n; i++ {
+		wg.Add(1)
+		timeout.Call(func() { time.Sleep(3 * time.Millisecond); wg.Done() }, time.Millisecond)
+	}
+	wg.Wait()
+	time.Sleep(20 * time.Millisecond)
 }
 
 // unlockfail: the Delete made by Unlock fails (request or reply lost). The tenure is over all the same: at most one
@@ -939,16 +986,7 @@ func runMulti(s LeaseScenario) (info LeaseInfo, v *vstat.Violation, exact bool) 
 	names := make([]string, s.Locks)
 	lockers := make([]interface{ Unlock() }, s.Locks)
 	held := make([]bool, s.Locks)
-	if s.Warm > 0 {
-		// give the process-wide timer pool a history: several callbacks due at once (the pool grows), then nothing (it idles)
-		var wg sync.WaitGroup
-		for i := 0; i < s.Warm; i++ {
-			wg.Add(1)
-			timeout.Call(func() { time.Sleep(3 * time.Millisecond); wg.Done() }, time.Millisecond)
-		}
-		wg.Wait()
-		time.Sleep(20 * time.Millisecond)
-	}
+	warmPool(s.Warm)
 	t0 := time.Now()
 	for i := range names {
 		names[i] = fmt.Sprintf("multi%d", i)
